@@ -277,12 +277,12 @@ func runC08(c *fw.Ctx) {
 	if err := ecref.SelfTest(); err != nil {
 		fw.Bug("ecref self-test: %v", err)
 	}
-	n := c.Pick(240, 3000)
+	n := c.Pick(240, 24000)
 	c.Cases(n, func(i int) string { return fmt.Sprintf("read|i=%d", i) }, func(i int, k *fw.K) {
 		pp := randPlan(k.RNG, c.Thorough() || i%10 == 0)
 		c08Run(k, pp, uint64(i)+1)
 	})
-	nm := c.Pick(24, 200)
+	nm := c.Pick(24, 1600)
 	c.Cases(nm, func(i int) string { return fmt.Sprintf("mobile|i=%d", i) }, func(i int, k *fw.K) {
 		pp := randPlan(k.RNG, false)
 		pp.shortRnd, pp.leCap = false, 0
@@ -290,7 +290,7 @@ func runC08(c *fw.Ctx) {
 	})
 	// tiny per-read sizes (1..8 bytes): legal settings that need small files to stay below
 	// the reader's chunk limit - a BAC-only chip with an EC-signed security object
-	nt := c.Pick(16, 64)
+	nt := c.Pick(16, 256)
 	c.Cases(nt, func(i int) string { return fmt.Sprintf("tiny-max-read|i=%d", i) }, func(i int, k *fw.K) {
 		r := k.RNG
 		var pp persoPlan
